@@ -30,6 +30,11 @@ class State:
         self.ssa = {}            # fn name -> bool: single-assignment form expected
         self.lowered = {}        # fn name -> bool
         self.last_text = {}      # fn name -> text after the previous pass on this fn
+        self.current_pass = None
+        self.want_live = False   # record LivenessAnalysis results (function text + tables)
+        self.live_obs = []       # dict(fn, phase, text, tables{label: (per-instruction live sets, out set)})
+        self.live_seen = set()
+        self.n_live_runs = 0
 
 
 def _allsubs(c):
@@ -55,6 +60,35 @@ def install():
         PASS_CLASSES[c.__name__] = c
         orig = c.__dict__["run_pass"]
         c.run_pass = _mk(orig, c.__name__)
+    _install_liveness()
+
+
+def _install_liveness():
+    """observe every run of the real LivenessAnalysis (requested by passes and by venom_to_assembly)"""
+    from vyper.venom.analysis.liveness import LivenessAnalysis
+    orig = LivenessAnalysis.analyze
+
+    def analyze(self, *a, **k):
+        r = orig(self, *a, **k)
+        st = STATE
+        if st is not None and st.want_live:
+            try:
+                st.n_live_runs += 1
+                fn = self.function
+                text = snap_text(fn, fn)
+                h = hashlib.sha1(text.encode()).hexdigest()[:16]
+                if h not in st.live_seen:
+                    st.live_seen.add(h)
+                    tables = {}
+                    for bb in fn.get_basic_blocks():
+                        tables[bb.label.value] = ([[v.value for v in self.inst_to_liveness[inst]] for inst in bb.instructions],
+                                                  [v.value for v in self._out_vars[bb]])
+                    st.live_obs.append({"fn": str(fn.name), "phase": st.current_pass or "codegen", "text": text, "tables": tables})
+            except Exception as e:  # noqa
+                st.live_obs.append({"fn": "?", "phase": "observer-error", "text": "", "tables": {}, "error": f"{type(e).__name__}: {e}"})
+        return r
+    analyze.__wrapped__ = orig
+    LivenessAnalysis.analyze = analyze
 
 
 def _mk(orig, name):
@@ -91,7 +125,11 @@ def _recorded(st, orig, name, self, a, k):
     tgt = fn if fn is not None else self.ctx
     fname = str(fn.name) if fn is not None else "<ctx>"
     before = snap_text(fn, tgt)
-    r = orig(self, *a, **k)
+    st.current_pass = name
+    try:
+        r = orig(self, *a, **k)
+    finally:
+        st.current_pass = None
     after = snap_text(fn, tgt)
     idx = st.n_invocations
     st.n_invocations += 1
